@@ -1,5 +1,6 @@
 import DaskModel.Model.Creation
 import DaskModel.Lemmas.ChunksPlanner
+import DaskModel.Lemmas.ChunksBlocks
 /-! Helper lemmas for C34 (creation routines). -/
 namespace Dask.Creation
 open Dask.Chunks
@@ -70,42 +71,6 @@ theorem ceilDivInt_lt_iff_neg (d s : Int) (hs : s < 0) (i : Int) : i < ceilDivIn
   rw [← ceilDivInt_neg_neg, ceilDivInt_lt_iff_pos (-d) (-s) (by omega)]
   rw [Int.mul_neg]; omega
 
-theorem blockStart_zero (cs : List Nat) : blockStart cs 0 = 0 := by simp [blockStart, sum]
-theorem blockStart_succ (c : Nat) (cs : List Nat) (b : Nat) : blockStart (c :: cs) (b + 1) = c + blockStart cs b := by
-  simp [blockStart, sum_cons]
-
-theorem blockOf_spec : ∀ {cs : List Nat} {p b o : Nat}, blockOf cs p = some (b, o) →
-    ∃ c, cs[b]? = some c ∧ o < c ∧ blockStart cs b + o = p
-  | [], _, _, _, h => by simp [blockOf] at h
-  | c :: cs, p, b, o, h => by
-    unfold blockOf at h
-    split at h
-    · rename_i hp
-      injection h with h; injection h with hb ho
-      subst hb; subst ho
-      exact ⟨c, by simp, hp, by simp [blockStart_zero]⟩
-    · rename_i hp
-      cases hrec : blockOf cs (p - c) with
-      | none => simp [hrec] at h
-      | some bo =>
-        obtain ⟨b', o'⟩ := bo
-        simp only [hrec, Option.map_some] at h
-        injection h with h; injection h with hb ho
-        subst hb; subst ho
-        obtain ⟨c', h1, h2, h3⟩ := blockOf_spec hrec
-        exact ⟨c', by simpa using h1, h2, by rw [blockStart_succ]; omega⟩
-
-theorem blockOf_some : ∀ {cs : List Nat} {p : Nat}, p < sum cs → ∃ b o, blockOf cs p = some (b, o)
-  | [], p, h => by simp [sum] at h
-  | c :: cs, p, h => by
-    unfold blockOf
-    split
-    · exact ⟨0, p, rfl⟩
-    · rename_i hp
-      rw [sum_cons] at h
-      obtain ⟨b, o, hbo⟩ := blockOf_some (cs := cs) (p := p - c) (by omega)
-      exact ⟨b + 1, o, by simp [hbo]⟩
-
 theorem eyeBlockVal_eq (v h rs cst : Nat) (k : Int) (ro co : Nat) (hro : ro < v) (hco : co < h) :
     eyeBlockVal v h rs cst k ro co = if ((cst + co : Nat) : Int) - ((rs + ro : Nat) : Int) = k then 1 else 0 := by
   show (if decide (-(v : Int) < k - ((cst : Int) - (rs : Int)) ∧ k - ((cst : Int) - (rs : Int)) < (h : Int)) = true
@@ -167,17 +132,5 @@ theorem linspace_lens (range : Int) (ep : Bool) : ∀ (cs : List Nat) (a : Int),
     (linspaceBlocks range ep a cs).map (·.len) = cs
   | [], _ => rfl
   | bs :: rest, a => by simp [linspaceBlocks, linspace_lens range ep rest]
-
-theorem splitBy_getD {α} : ∀ (cs : List Nat) (xs : List α) (b c : Nat), cs[b]? = some c →
-    (splitBy cs xs).getD b [] = (xs.drop (blockStart cs b)).take c
-  | [], _, _, _, h => by simp at h
-  | c0 :: cs, xs, 0, c, h => by
-    simp at h; subst h
-    simp [splitBy, blockStart_zero]
-  | c0 :: cs, xs, b + 1, c, h => by
-    simp only [List.getElem?_cons_succ] at h
-    simp only [splitBy, List.getD_cons_succ, blockStart_succ]
-    rw [splitBy_getD cs (xs.drop c0) b c h, List.drop_drop]
-
 
 end Dask.Creation
